@@ -241,10 +241,30 @@ def main():
         print(f"REPLAY-PASSES property={pid}")
         sys.exit(0)
 
+    if not violation and logs_bad and not a.replay:
+        # a shard that died of a fatal runtime error (stack overflow, unrecovered panic in another
+        # goroutine, signal) leaves its journal: the case it was executing is the replay file
+        for i, rd, rc in logs_bad:
+            txt = open(os.path.join(rd, "log")).read()
+            j = os.path.join(rd, "stats.json.journal.json")
+            fatal = any(k in txt for k in ("fatal error:", "panic:", "SIGSEGV", "SIGBUS", "unexpected signal", "goroutine stack exceeds"))
+            if fatal and "test timed out" not in txt and os.path.exists(j) and cfg.get("journal_is_violation"):
+                try:
+                    d = json.load(open(j))
+                    d["error"] = "process died while running this case:\n" + txt[-3000:]
+                    json.dump(d, open(j, "w"), indent=1)
+                except Exception:
+                    pass
+                violation = save_replay(pid, j)
+                break
+
     if not violation and logs_bad:
         i, rd, rc = logs_bad[0]
         txt = open(os.path.join(rd, "log")).read()
         why = f"shard {i} exited rc={rc} without a failing case"
+        j = os.path.join(rd, "stats.json.journal.json")
+        if os.path.exists(j):
+            why += " (last journaled case: " + open(j).read()[:1500] + ")"
         if "test timed out" in txt or rc == -9:
             why = f"shard {i} hit the time budget"
         write_evidence(pid, cfg, tier, seed, merged, wall, 0, fuzz_info, note="INCONCLUSIVE: " + why)
